@@ -366,34 +366,7 @@ func (c *Check) establishedBeatsInProgress(rule string) {
 		ok := hasArg(ef2.calls["peer.disableFSM"], i) && onlyArg(ef2.calls["peer.disableFSM"], i) && len(ef2.calls["peer.sendTransitionToFSM"]) == 0 && len(ef2.sel) == 0
 		c.require(ok, rule, "peer.handleStateTransition", name, pos, "the requester is disabled, nothing is approved, the Established FSM is untouched")
 	}
-	// disableFSM stops the FSM and waits for its goroutine
-	if d := p.Fn("peer.disableFSM"); d != nil {
-		a := NewAnalysis(p, d)
-		a.AtomHook = func(e *Expr) (ISet, bool) {
-			if e.Op == "nn" && e.Args[0].Op == "ld" && strings.Contains(e.Args[0].Key, "fa:fsms") {
-				return isConst(1), true
-			}
-			return nil, false
-		}
-		a.Run()
-		ok := len(a.Returns) > 0
-		for _, r := range a.Returns {
-			if !r.State.must["call:fsm.stop"] {
-				ok = false
-			}
-		}
-		c.require(ok, rule, "peer.disableFSM", "stop and join", p.Pos(d.Pos()), "for an existing FSM disableFSM calls fsm.stop() (which joins the goroutine) on every path")
-	}
-	if s := p.Fn("fsm.stop"); s != nil {
-		pd := newPostDom(s)
-		ok := false
-		allInstrs(s, func(x ssa.Instruction) {
-			if u, isU := x.(*ssa.UnOp); isU && u.Op.String() == "<-" && chanFieldName(u.X) == "doneCh" && pd.onEveryReturnPath(x) {
-				ok = true
-			}
-		})
-		c.require(ok, rule, "fsm.stop", "waits doneCh", p.Pos(s.Pos()), "stop() receives from doneCh on every path")
-	}
+	c.disableStopsAndJoins(rule)
 	// run(): doneCh is closed by the outermost defer after cleanup()
 	if r := p.Fn("fsm.run"); r != nil {
 		ok := false
@@ -606,4 +579,39 @@ func (c *Check) disableEnablePairing(rule string) {
 	}
 	c.require(ok, rule, "", "writers of peer.fsmState", "-", fmt.Sprintf("fsmState is written only on approval, disable, enable and construction: %v", ws))
 	_ = types.Typ
+}
+
+// disableStopsAndJoins: whenever the FSM table holds an FSM, disableFSM stops
+// it and waits for its goroutine (fsm.stop receives doneCh): an FSM that
+// exists is never skipped by shutdown, whatever the recorded state says.
+func (c *Check) disableStopsAndJoins(rule string) {
+	p := c.P
+	// disableFSM stops the FSM and waits for its goroutine
+	if d := p.Fn("peer.disableFSM"); d != nil {
+		a := NewAnalysis(p, d)
+		a.AtomHook = func(e *Expr) (ISet, bool) {
+			if e.Op == "nn" && e.Args[0].Op == "ld" && strings.Contains(e.Args[0].Key, "fa:fsms") {
+				return isConst(1), true
+			}
+			return nil, false
+		}
+		a.Run()
+		ok := len(a.Returns) > 0
+		for _, r := range a.Returns {
+			if !r.State.must["call:fsm.stop"] {
+				ok = false
+			}
+		}
+		c.require(ok, rule, "peer.disableFSM", "stop and join", p.Pos(d.Pos()), "for an existing FSM disableFSM calls fsm.stop() (which joins the goroutine) on every path")
+	}
+	if s := p.Fn("fsm.stop"); s != nil {
+		pd := newPostDom(s)
+		ok := false
+		allInstrs(s, func(x ssa.Instruction) {
+			if u, isU := x.(*ssa.UnOp); isU && u.Op.String() == "<-" && chanFieldName(u.X) == "doneCh" && pd.onEveryReturnPath(x) {
+				ok = true
+			}
+		})
+		c.require(ok, rule, "fsm.stop", "waits doneCh", p.Pos(s.Pos()), "stop() receives from doneCh on every path")
+	}
 }
